@@ -1,5 +1,5 @@
 #!/usr/bin/env bash
-# tools/seed_round8.sh  - creates one scratch worktree per property under /tmp/seed8-<ID> with PROPERTY.txt and PROMPT.txt
+# tools/seed_round.sh  (ROUND=<n> KINDS=<20 letters A/B/C>)  - creates one scratch worktree per property under /tmp/seed8-<ID> with PROPERTY.txt and PROMPT.txt
 # (round 8: cooperating sites / faults at a point / multi-step histories).  Nothing from /verif but the property text goes in.
 HERE="$(cd "$(dirname "${BASH_SOURCE[0]}")/.." && pwd)"
 KIND_A='TWO COOPERATING SITES'
@@ -10,7 +10,7 @@ KIND_C='MULTI-STEP HISTORY'
 TEXT_C='The property must stay intact for every single operation tried from a fresh state and break only after a HISTORY of at least three public operations in a particular order (for example connect - disconnect - connect again; authenticate - failed refresh - join; extend the version records - re-initialise - compare; several maps / players updated alternately; a listener registered, used, then another registered; compression enabled then a reconnect; status query then connect on the same object). State carried from an earlier step (a cached value, a list that is not cleared, a flag that is not reset, an attribute shared between instances, a default mutable argument) must be what makes a later step go wrong.'
 i=0
 for n in $(seq -w 1 20); do
-  PID="C$n"; D="/tmp/seed8-$PID"
+  PID="C$n"; D="/tmp/seed${ROUND:-8}-$PID"
   git -C /repo worktree add --detach "$D" HEAD >/dev/null 2>&1 || { echo "worktree $D exists?"; continue; }
   mkdir -p "$D/_seed"
   python3 - "$HERE/properties.jsonl" "$PID" > "$D/PROPERTY.txt" <<'PY'
